@@ -5,7 +5,8 @@
 //! an internal word-slice kernel at its documented contract boundary.
 
 use crate::{
-    arch::word::{SignedWord, Word},
+    add,
+    arch::word::{DoubleWord, SignedWord, Word},
     div,
     ibig::IBig,
     memory::MemoryAllocation,
@@ -173,4 +174,47 @@ pub fn lehmer_ext_step(
     d: Word,
 ) -> (Word, Word) {
     crate::gcd::lehmer_verif::ext_step(x, y, len, a, b, c, d)
+}
+
+/// One word-slice kernel of `add.rs` / `mul/mod.rs`, selected by number, at its contract boundary.
+///
+/// Returns (magnitude, negative?) of the kernel's return value (a carry / borrow flag as 0 / 1, a `Sign` as 0 with
+/// the flag, a word or double-word carry as itself); `lhs` is the slice written to.  Numbers:
+/// 0 add_one 1 sub_one 2 add_word(x) 3 sub_word(x) 4 add_dword(x) 5 sub_dword(x) 6 add_same_len 7 sub_same_len
+/// 8 add_in_place 9 sub_in_place 10 sub_same_len_in_place_swap(rhs, lhs) 11 sub_in_place_with_sign
+/// 12 add_signed_word(sx) 13 add_signed_same_len(sign of sx) 14 add_signed_in_place(sign of sx)
+/// 15 mul_word_in_place_with_carry(low word of x, carry = high word of x) 16 mul_word_in_place(x)
+/// 17 mul_dword_in_place(x) 18 add_mul_word_same_len(x) 19 sub_mul_word_same_len(x).
+/// The caller has to respect each kernel's own preconditions (lengths, non-emptiness).
+pub fn word_kernel(which: u8, lhs: &mut [Word], rhs: &[Word], x: DoubleWord, sx: SignedWord) -> (DoubleWord, bool) {
+    let sign = if sx < 0 {
+        Sign::Negative
+    } else {
+        Sign::Positive
+    };
+    let flag = |b: bool| (b as DoubleWord, false);
+    let signed = |v: SignedWord| (v.unsigned_abs() as DoubleWord, v < 0);
+    let xw = x as Word;
+    match which {
+        0 => flag(add::add_one_in_place(lhs)),
+        1 => flag(add::sub_one_in_place(lhs)),
+        2 => flag(add::add_word_in_place(lhs, xw)),
+        3 => flag(add::sub_word_in_place(lhs, xw)),
+        4 => flag(add::add_dword_in_place(lhs, x)),
+        5 => flag(add::sub_dword_in_place(lhs, x)),
+        6 => flag(add::add_same_len_in_place(lhs, rhs)),
+        7 => flag(add::sub_same_len_in_place(lhs, rhs)),
+        8 => flag(add::add_in_place(lhs, rhs)),
+        9 => flag(add::sub_in_place(lhs, rhs)),
+        10 => flag(add::sub_same_len_in_place_swap(rhs, lhs)),
+        11 => (0, add::sub_in_place_with_sign(lhs, rhs) == Sign::Negative),
+        12 => signed(add::add_signed_word_in_place(lhs, sx)),
+        13 => signed(add::add_signed_same_len_in_place(lhs, sign, rhs)),
+        14 => signed(add::add_signed_in_place(lhs, sign, rhs)),
+        15 => (mul::mul_word_in_place_with_carry(lhs, xw, (x >> Word::BITS) as Word) as DoubleWord, false),
+        16 => (mul::mul_word_in_place(lhs, xw) as DoubleWord, false),
+        17 => (mul::mul_dword_in_place(lhs, x), false),
+        18 => (mul::add_mul_word_same_len_in_place(lhs, xw, rhs) as DoubleWord, false),
+        _ => (mul::sub_mul_word_same_len_in_place(lhs, xw, rhs) as DoubleWord, false),
+    }
 }
